@@ -394,8 +394,13 @@ func (g *generator) walkList(schema *schemaparser.Schema) (ast.Type, error) {
 	case schema.Items2020 != nil:
 		itemsDef, err = g.walkDefinition(schema.Items2020)
 	default:
-		// TODO: schema.Items might not be a schema?
-		itemsDef, err = g.walkDefinition(schema.Items.(*schemaparser.Schema))
+		itemsSchema, ok := schema.Items.(*schemaparser.Schema)
+		if !ok {
+			// `items` given as a list of schemas (tuple validation)
+			return ast.Type{}, fmt.Errorf("array items defined as a list of schemas are not supported")
+		}
+
+		itemsDef, err = g.walkDefinition(itemsSchema)
 	}
 
 	// items contains an empty schema: `{}`
